@@ -152,7 +152,8 @@ def gen_linear(g, nin, nout, relu=None):
 
 def gen_mlp(g, nin, nout):
     hid = g.choice([2, 3])
-    return dict(kind="mlp", layers=[dict(w=[[g.choice(DY_W) for _ in range(nin)] for _ in range(hid)],
+    # half of the MLPs are built with pfhedge's own MultiLayerPerceptron (lazy first layer in half of those)
+    return dict(kind="mlp", pf=g.choice([None, None, "eager", "lazy"]), layers=[dict(w=[[g.choice(DY_W) for _ in range(nin)] for _ in range(hid)],
                                          b=[g.choice([F(0), F(1, 2)]) for _ in range(hid)]),
                                     dict(w=[[g.choice(DY_W) for _ in range(hid)] for _ in range(nout)],
                                          b=[g.choice([F(0), F(-1, 4)]) for _ in range(nout)])])
@@ -190,6 +191,22 @@ def model_obj(torch, ms, dtype=None):
     if ms["kind"] == "linear":
         l = lin(ms["w"], ms["b"])
         return torch.nn.Sequential(l, torch.nn.ReLU()) if ms["relu"] else l
+    if ms["kind"] == "mlp" and ms.get("pf"):
+        # pfhedge.nn.MultiLayerPerceptron with the same architecture, its Linear layers overwritten by the dyadic weights
+        from pfhedge.nn import MultiLayerPerceptron
+        Ls = ms["layers"]
+        nin = None if ms["pf"] == "lazy" else len(Ls[0]["w"][0])
+        m_ = MultiLayerPerceptron(nin, len(Ls[-1]["w"]), n_layers=len(Ls) - 1, n_units=tuple(len(l["w"]) for l in Ls[:-1]))
+        m_ = m_.to(dtype)
+        if ms["pf"] == "lazy":
+            m_(torch.zeros(1, len(Ls[0]["w"][0]), dtype=dtype))      # materialise the LazyLinear
+        lins = [x for x in m_ if isinstance(x, torch.nn.Linear)]
+        assert len(lins) == len(Ls)
+        with torch.no_grad():
+            for lin_, l in zip(lins, Ls):
+                lin_.weight.copy_(torch.tensor([[float(x) for x in r] for r in l["w"]], dtype=dtype))
+                lin_.bias.copy_(torch.tensor([float(x) for x in l["b"]], dtype=dtype))
+        return m_
     if ms["kind"] == "mlp":
         mods = []
         for i, l in enumerate(ms["layers"]):
